@@ -204,6 +204,9 @@ func (s *ltcredSys) mutate(mut string) (string, string) {
 		p = macPw(s.secret, u)
 	case "userSwap":
 		u = strconv.FormatInt(t, 10) + ":mallory"
+	case "restFormKeyed": // "<exp>:x" with the password derived from the secret for exactly that name
+		u = strconv.FormatInt(t, 10) + ":x"
+		p = macPw(s.secret, u)
 	}
 
 	return u, p
